@@ -9,6 +9,10 @@
  *     same bytes (repeatable), reset re-arms;
  *   - get_string = lower-case hex of the raw digest, 2*length characters + NUL; get_digest copies length bytes, sets *len;
  *   - get_digest with a short buffer sets *len = 0 and writes nothing (whether it finalises is not constrained);
+ *   - allocation failure (models/alloc.c) symbolically at each get_string of the sequence (any subset of the reads fails), and
+ *     with -DOOM_NEW at p_crypto_hash_new: whatever fails, the algorithm is finalised at most once per creation/reset and never updated after it was
+ *     finalised, so the next successful read is still the digest of the bytes updated before the first read attempt (the stub
+ *     flags a digest request on a context finalised twice or updated after finish);
  *   (leaks / double release on free are C20's subject, not asserted here.)
  * The digest bytes delivered by the stub are symbolic. */
 #include "verif.h"
@@ -34,13 +38,17 @@ static struct PHashSHA2_512_ c_s512; static struct PHashSHA3_ c_sha3; static str
 static int created_type = -1, cur_fam = -1;
 static int n_new, n_update, n_finish, n_reset, n_digest, n_free, wrong_ctx;
 static const puchar *u_data; static psize u_len;
-static puchar sdig[64];          /* what the algorithm's digest() returns */
+static puchar sdig[64];          /* what the algorithm's digest() returns for a context finalised exactly once, with no
+                                    update after the finalisation (= the standard digest of the bytes updated before it) */
+static int fin_since_reset, poisoned, bad_digest;   /* bad_digest: digest() was asked of a context that was never finalised,
+                                    finalised twice or updated after finish - what it returns is then NOT the standard digest
+                                    (a second pointer value for that case made the queries 20x slower, so it is a flag) */
 
 #define FAMILY(F, T, CTX)                                                                                   \
-  void p_crypto_hash_##F##_update(T *c, const puchar *d, psize l) { wrong_ctx |= ((void *) c != (void *) &CTX); n_update++; u_data = d; u_len = l; } \
-  void p_crypto_hash_##F##_finish(T *c) { wrong_ctx |= ((void *) c != (void *) &CTX); n_finish++; }         \
-  const puchar *p_crypto_hash_##F##_digest(T *c) { wrong_ctx |= ((void *) c != (void *) &CTX); n_digest++; return sdig; } \
-  void p_crypto_hash_##F##_reset(T *c) { wrong_ctx |= ((void *) c != (void *) &CTX); n_reset++; }           \
+  void p_crypto_hash_##F##_update(T *c, const puchar *d, psize l) { wrong_ctx |= ((void *) c != (void *) &CTX); n_update++; u_data = d; u_len = l; if (fin_since_reset > 0) poisoned = 1; } \
+  void p_crypto_hash_##F##_finish(T *c) { wrong_ctx |= ((void *) c != (void *) &CTX); n_finish++; if (++fin_since_reset > 1) poisoned = 1; } \
+  const puchar *p_crypto_hash_##F##_digest(T *c) { wrong_ctx |= ((void *) c != (void *) &CTX); n_digest++; bad_digest |= !(fin_since_reset == 1 && !poisoned); return sdig; } \
+  void p_crypto_hash_##F##_reset(T *c) { wrong_ctx |= ((void *) c != (void *) &CTX); n_reset++; fin_since_reset = 0; poisoned = 0; } \
   void p_crypto_hash_##F##_free(T *c) { wrong_ctx |= ((void *) c != (void *) &CTX); n_free++; }
 #define NEWFN(N, T, CTX, TYPE) T *p_crypto_hash_##N##_new(void) { n_new++; created_type = TYPE; return &CTX; }
 
@@ -57,7 +65,7 @@ static const char lower_hex[] = "0123456789abcdef";
 
 void harness(void)
 {
-  int type, op, i, closed = 0, reads = 0, shorts = 0, resets = 0, ignored = 0;
+  int type, op, i, closed = 0, reads = 0, shorts = 0, resets = 0, ignored = 0, oom_reads = 0, read_after_oom = 0;
   unsigned n, j;
   PCryptoHash *h;
   static puchar msg[4];
@@ -69,11 +77,21 @@ void harness(void)
   VASSUME(type < 0 || type > 10);
 #endif
   for (j = 0; j < 64; j++) sdig[j] = ND_UCHAR();
+#ifdef TYPE
+#ifdef OOM_NEW
+  vm_fail_at = 1;                     /* the object itself cannot be allocated (disp_*_oomnew query) */
+#endif
+#endif
   h = p_crypto_hash_new((PCryptoHashType) type);
 #ifndef TYPE
   VASSERT(h == NULL && n_new == 0, "unknown type: no object, no algorithm created");
   VWITNESS("invalid type rejected");
-  (void) op; (void) i; (void) closed; (void) reads; (void) shorts; (void) resets; (void) ignored; (void) n; (void) msg;
+  (void) op; (void) i; (void) closed; (void) reads; (void) shorts; (void) resets; (void) ignored; (void) oom_reads; (void) read_after_oom; (void) n; (void) msg;
+#else
+#ifdef OOM_NEW
+  VASSERT(h == NULL, "p_crypto_hash_new reports the allocation failure");
+  VWITNESS("creation failed for lack of memory");
+  (void) op; (void) i; (void) closed; (void) reads; (void) shorts; (void) resets; (void) ignored; (void) oom_reads; (void) read_after_oom; (void) n; (void) msg;
 #else
   VASSERT(h != NULL && n_new == 1 && created_type == type, "p_crypto_hash_new creates the algorithm of the requested type exactly once");
   n = std_len[type];
@@ -102,16 +120,31 @@ void harness(void)
       VASSERT(n_reset == r0 + 1 && n_finish == f0 && n_update == u0, "reset resets the algorithm once");
       closed = 0; resets++;
     } else if (op == 2) {             /* hex string */
-      pchar *s = p_crypto_hash_get_string(h);
+      int failed0 = vm_failed;
+      pchar *s;
       int ok = 1;
-      VASSERT(s != NULL, "hex string returned");
-      VASSERT(n_finish == f0 + (closed ? 0 : 1), "first read finalises exactly once, repeated reads never again");
-      for (j = 0; j < 64; j++) if (j < n) ok &= (s[2 * j] == lower_hex[sdig[j] >> 4] && s[2 * j + 1] == lower_hex[sdig[j] & 15]);
-      ok &= (s[2 * n] == 0);
-      VASSERT(ok, "hex string == lower-case hex of the raw digest, 2*length characters, NUL terminated");
+      /* symbolic allocation failure for THIS read.  The two cases are executed on separate paths with concrete allocator
+       * knobs, so the returned pointer is never a NULL/object mix (that mix cost 14 M clauses, 70-110 s per query) */
+      if (ND_BOOL()) { vm_nalloc = 0; vm_fail_at = 1; vm_fail_from = 0; s = p_crypto_hash_get_string(h); }
+      else           { vm_nalloc = 0; vm_fail_at = 0; vm_fail_from = 0; s = p_crypto_hash_get_string(h); }
       VASSERT(n_update == u0 && n_reset == r0, "reading neither updates nor resets");
-      p_free(s);
-      closed = 1; reads++;
+      if (s == NULL) {
+        /* out of memory.  pcryptohash.h does not say whether a failed read closes the hash, so only this is demanded: the
+         * algorithm is finalised at most once, and if it WAS finalised the hash counts as read (no second finish, no update
+         * into the finalised context) - otherwise the next successful read would not be the standard digest */
+        VASSERT(vm_failed > failed0, "get_string returns NULL only when its allocation failed");
+        VASSERT(n_finish == f0 + (closed ? 0 : 1) || n_finish == f0, "a failed read finalises at most once");
+        if (n_finish != f0) closed = 1;
+        oom_reads++;
+      } else {
+        VASSERT(n_finish == f0 + (closed ? 0 : 1), "first read finalises exactly once, repeated reads never again");
+        for (j = 0; j < 64; j++) if (j < n) ok &= (s[2 * j] == lower_hex[sdig[j] >> 4] && s[2 * j + 1] == lower_hex[sdig[j] & 15]);
+        ok &= (s[2 * n] == 0);
+        VASSERT(ok, "hex string == lower-case hex of the digest of the bytes updated before the first read attempt, 2*length characters, NUL terminated");
+        p_free(s);
+        if (oom_reads) read_after_oom = 1;
+        closed = 1; reads++;
+      }
     } else {                          /* raw digest, symbolic buffer length */
       puchar out[66]; psize bl = (psize) ND_ULL(), bl0 = bl;
       int ok = 1;
@@ -132,12 +165,15 @@ void harness(void)
         for (j = 0; j < 64; j++) if (j < n) ok &= (out[1 + j] == sdig[j]);
         ok &= (out[0] == 0xEE);
         for (j = 0; j < 65; j++) if (j >= bl0) ok &= (out[1 + j] == 0xEE);
-        VASSERT(ok, "raw digest == the algorithm's digest bytes; nothing written outside the caller's buffer");
+        VASSERT(ok, "raw digest == digest of the bytes updated before the first read attempt; nothing written outside the caller's buffer");
+        if (oom_reads) read_after_oom = 1;
         closed = 1; reads++;
       }
       VASSERT(n_update == u0 && n_reset == r0, "reading neither updates nor resets");
     }
     VASSERT(!wrong_ctx, "the algorithm is always called on the context created for this hash");
+    VASSERT(!bad_digest, "every digest handed out is the one of a context finalised exactly once and not updated since: a read equals the digest of the bytes updated before the first read attempt, also after a read that failed for lack of memory");
+    VASSERT(fin_since_reset <= 1 && !poisoned, "between creation/reset and the next reset the algorithm is finalised at most once and never updated afterwards, whatever fails");
   }
   p_crypto_hash_free(h);
   VASSERT(!wrong_ctx, "free is called on the context created for this hash");
@@ -146,5 +182,8 @@ void harness(void)
   if (ignored) VWITNESS("update after read ignored");
   if (resets && reads && ignored) VWITNESS("read, ignored update and reset in one sequence");
   if (shorts) VWITNESS("short buffer refused");
+  if (oom_reads) VWITNESS("get_string failed for lack of memory");
+  if (read_after_oom) VWITNESS("successful read after a read that failed for lack of memory");
+#endif  /* OOM_NEW */
 #endif
 }
